@@ -150,7 +150,7 @@ def _show(x):
     return x
 
 
-def build_def_declared(d, name='f'):
+def build_def_declared(d, name='f', reregister=False):
     """The same family member declared the way a host does it: a Python
     function with a real signature (defaults, *args, keyword-only
     parameters, **kwargs), typed with specs.parameter decorators and turned
@@ -212,6 +212,19 @@ def build_def_declared(d, name='f'):
         func = specs.extension_method(func)
     if d.get('no_kwargs'):
         func = specs.no_kwargs(func)
+    if reregister:
+        # the same decorated function was registered elsewhere before: in a
+        # context with the camelCase naming convention, and a copy of that
+        # registration had its hidden parameters stripped (both are public
+        # API and must not leak into this registration)
+        from yaql.language import conventions
+        other = contexts.Context(convention=conventions.CamelCaseConvention())
+        other.register_function(func, name=name)
+        for fd0 in list(other._functions.get(name, ())):
+            try:
+                fd0.strip_hidden_parameters()
+            except Exception:   # noqa
+                pass
     return specs.get_function_definition(func, name=name)
 
 
@@ -275,8 +288,9 @@ def build_chain(family, base, orders=None, ordered=True, reg_order=None):
     for i in idx:
         d = family['defs'][i]
         fd = None
-        if family.get('decl') == 'signature':
-            fd = build_def_declared(d)
+        if family.get('decl') in ('signature', 'signature-reregistered'):
+            fd = build_def_declared(
+                d, reregister=family['decl'] == 'signature-reregistered')
         elif family.get('decl') == 'shared-callable':
             fd = build_def_shared(d, shared)
         if fd is None:
